@@ -47,6 +47,10 @@ impl ServerStartInstant {
         Self(Instant::now())
     }
     pub fn seconds_elapsed(&self) -> Option<SecondsSinceServerStart> {
+        #[cfg(aquatic_verif)]
+        if let Some(seconds) = verif::mock_seconds() {
+            return Some(SecondsSinceServerStart(seconds));
+        }
         Instant::now().checked_duration_since(self.0).map(|dur| {
             let seconds = dur
                 .as_secs()
@@ -114,6 +118,44 @@ impl CanonicalSocketAddr {
 
     pub fn is_ipv4(&self) -> bool {
         self.0.is_ipv4()
+    }
+}
+
+/// Verification hooks (compiled only with `--cfg aquatic_verif`): a thread-local mock clock
+/// consulted by `ServerStartInstant::seconds_elapsed`, and named probe points dispatching to a
+/// process-global callback.
+#[cfg(aquatic_verif)]
+pub mod verif {
+    use std::cell::Cell;
+    use std::sync::RwLock;
+
+    thread_local! {
+        static MOCK_SECONDS: Cell<Option<u32>> = const { Cell::new(None) };
+    }
+
+    pub fn set_mock_seconds(seconds: Option<u32>) {
+        MOCK_SECONDS.with(|c| c.set(seconds));
+    }
+
+    pub fn mock_seconds() -> Option<u32> {
+        MOCK_SECONDS.with(|c| c.get())
+    }
+
+    type ProbeFn = Box<dyn Fn(&'static str, u64) + Send + Sync>;
+
+    static PROBE: RwLock<Option<ProbeFn>> = RwLock::new(None);
+
+    pub fn set_probe(f: Option<ProbeFn>) {
+        *PROBE.write().unwrap() = f;
+    }
+
+    #[inline]
+    pub fn probe(name: &'static str, arg: u64) {
+        if let Ok(guard) = PROBE.read() {
+            if let Some(f) = guard.as_ref() {
+                f(name, arg);
+            }
+        }
     }
 }
 
